@@ -423,3 +423,28 @@ def _user_index(ex, base, key, line):
 
 
 W.user_index = _user_index
+
+
+# ---------------------------------------------------------------------------- min()/max()/round() over symbolic collections
+def _minmax_coll(ex, coll, is_min, e):
+    if isinstance(coll, C) and isinstance(coll.ty, SetOf) and coll.ty.elem in (REAL, INT):
+        s_ = ex.read(coll)
+        ex.maybe_raise('ValueError', s_ == coll.ty.empty(), e.lineno)
+        m = ex.fresh('min' if is_min else 'max', coll.ty.elem)
+        x = z3.Const(ex.path.fresh_name('qm'), coll.ty.elem.sort())
+        ex.assume(s_[m])
+        ex.st.qh.append(QHyp([x], Implies(s_[x], m <= x if is_min else m >= x), 'min' if is_min else 'max'))
+        return V(m, coll.ty.elem)
+    raise Unsupported('min/max of %r' % (coll,))
+
+
+def _round(ex, v, e):
+    if isinstance(v, V) and v.ty == REAL:
+        r = ex.fresh('rounded', INT)
+        ex.assume(And(z3.ToReal(r) - v.t <= 0.5, v.t - z3.ToReal(r) <= 0.5))
+        return V(r, INT)
+    raise Unsupported('round(%r)' % (v,))
+
+
+W.minmax_coll = _minmax_coll
+W.round = _round
